@@ -15,6 +15,7 @@ package stateproof
 
 import (
 	"crypto/sha256"
+	"encoding/binary"
 	"errors"
 	"fmt"
 	"math"
@@ -23,6 +24,7 @@ import (
 	"sync"
 	"testing"
 
+	"golang.org/x/crypto/sha3"
 	"pgregory.net/rapid"
 
 	"github.com/algorand/go-algorand/crypto"
@@ -100,6 +102,7 @@ func c39PoolSize() int { return vkN(12, 24) }
 
 type c39Case struct {
 	Scenario string
+	Profile  string
 	Weights  []uint64
 	Ident    []int
 	Signs    []bool
@@ -129,13 +132,16 @@ func c39GenCase(t *rapid.T) *c39Case {
 	n := rapid.SampledFrom([]int{4, 5, 7, 8, 9, 12, 15, 16, 17, 24, 31, 32, 33, 40}).Draw(t, "participants")
 	c.Seed = rapid.Int64().Draw(t, "seed")
 	r := mrand.New(mrand.NewSource(c.Seed))
-	kind := rapid.SampledFrom([]string{"equal", "small", "whale", "stake"}).Draw(t, "weights")
+	kind := rapid.SampledFrom([]string{"equal", "small", "whale", "stake", "tiny", "tiny"}).Draw(t, "weights")
+	c.Profile = kind
 	c.Weights = make([]uint64, n)
 	c.Ident = make([]int, n)
 	for i := range c.Weights {
 		switch kind {
 		case "equal":
 			c.Weights[i] = 1000
+		case "tiny":
+			c.Weights[i] = uint64(1 + r.Intn(3)) // slot boundaries dense: almost every coin is the first or last coin of its slot
 		case "small":
 			c.Weights[i] = uint64(r.Intn(20)) // zeros: participants that can never sign
 		case "whale":
@@ -171,7 +177,11 @@ func c39GenCase(t *rapid.T) *c39Case {
 		if r.Intn(2) == 0 {
 			pct = uint64(10 + r.Intn(36))
 		}
-		c.PW = total / 100 * pct
+		if total < 1<<50 {
+			c.PW = total * pct / 100
+		} else {
+			c.PW = total / 100 * pct
+		}
 		if c.PW == 0 {
 			c.PW = 1
 		}
@@ -605,6 +615,34 @@ var c39Catalog = []c39Tamper{
 	}},
 }
 
+// c39Coins recomputes the Fiat-Shamir coins of a proof independently of coinGenerator.go: own seed serialisation, own
+// SHAKE256 context, rejection sampling in uint64 arithmetic (accept z iff z < floor(2^64/sw)*sw, coin = z mod sw).
+func c39Coins(partcom []byte, lnProvenWeight uint64, sigcom []byte, sw uint64, data MessageHash, n int) []uint64 {
+	b := []byte("spc")
+	b = append(b, 0)
+	b = append(b, partcom...)
+	var u [8]byte
+	binary.LittleEndian.PutUint64(u[:], lnProvenWeight)
+	b = append(b, u[:]...)
+	b = append(b, sigcom...)
+	binary.LittleEndian.PutUint64(u[:], sw)
+	b = append(b, u[:]...)
+	b = append(b, data[:]...)
+	shk := sha3.NewShake256()
+	shk.Write(b)
+	rem := (math.MaxUint64%sw + 1) % sw // 2^64 mod sw
+	coins := make([]uint64, 0, n)
+	for len(coins) < n {
+		var z8 [8]byte
+		shk.Read(z8[:])
+		z := binary.LittleEndian.Uint64(z8[:])
+		if z <= math.MaxUint64-rem {
+			coins = append(coins, z%sw)
+		}
+	}
+	return coins
+}
+
 func c39Verify(x *c39T) error {
 	v, err := MkVerifier(x.partcom, x.pw, x.st)
 	if err != nil {
@@ -627,6 +665,7 @@ func TestVerif_C39_Proofs(t *testing.T) {
 			t.Fatalf("building the honest prover failed: %v", err)
 		}
 		vk.Label("scenario=" + c.Scenario)
+		vk.Label("weights=" + c.Profile)
 		fp := fmt.Sprintf("%v/%v/%v/%d/%d/%d/%x", c.Weights, c.Ident, c.Signs, c.PW, c.ST, c.Round, c.Data[:6])
 		if b.prover.SignedWeight() != b.signed {
 			t.Fatalf("prover signed weight %d, sum of signer weights %d", b.prover.SignedWeight(), b.signed)
@@ -745,6 +784,108 @@ func TestVerif_C39_Proofs(t *testing.T) {
 				}
 			}
 		}
+		// --- coin / slot binding decided by the harness from the signed-slot table, independently of the verifier:
+		// coin j must lie in [L, L+Weight) of the slot PositionsToReveal[j] claims. The honest proof must satisfy it, and
+		// re-pointing entry j at the neighbouring signed slot (whose half-open range ends exactly at, or starts right after,
+		// the coin) must be rejected.
+		{
+			lnpw, err := LnIntApproximation(c.PW)
+			if err != nil {
+				t.Fatalf("ln: %v", err)
+			}
+			coins := c39Coins(b.partcom, lnpw, sp.SigCommit, sp.SignedWeight, c.Data, len(sp.PositionsToReveal))
+			slotL := make([]uint64, len(c.Weights))
+			var signers []int
+			var acc uint64
+			for i, w := range c.Weights {
+				slotL[i] = acc
+				if c.Signs[i] {
+					acc += w
+					signers = append(signers, i)
+				}
+			}
+			inSlot := func(coin uint64, q int) bool { return c.Signs[q] && coin >= slotL[q] && coin-slotL[q] < c.Weights[q] }
+			type sub struct {
+				j, q int
+				kind string
+			}
+			var boundary, other []sub
+			for j, coin := range coins {
+				pos := int(sp.PositionsToReveal[j])
+				if pos >= len(c.Weights) || !inSlot(coin, pos) {
+					t.Fatalf("honest proof: coin #%d = %d is outside the slot [%d,%d+%d) of the position %d it reveals (signed weight %d)", j, coin, slotL[c39MinInt(pos, len(slotL)-1)], slotL[c39MinInt(pos, len(slotL)-1)], c.Weights[c39MinInt(pos, len(c.Weights)-1)], pos, sp.SignedWeight)
+				}
+				k := sort.SearchInts(signers, pos)
+				if k > 0 {
+					q := signers[k-1]
+					if _, ok := sp.Reveals[uint64(q)]; ok {
+						if coin == slotL[q]+c.Weights[q] {
+							boundary = append(boundary, sub{j, q, "coin == L+Weight of the lower neighbour"})
+						} else {
+							other = append(other, sub{j, q, "lower neighbour"})
+						}
+					}
+				}
+				if k+1 < len(signers) {
+					q := signers[k+1]
+					if _, ok := sp.Reveals[uint64(q)]; ok {
+						if coin+1 == slotL[q] {
+							boundary = append(boundary, sub{j, q, "coin == L-1 of the upper neighbour"})
+						} else {
+							other = append(other, sub{j, q, "upper neighbour"})
+						}
+					}
+				}
+			}
+			r.Shuffle(len(boundary), func(i, j int) { boundary[i], boundary[j] = boundary[j], boundary[i] })
+			r.Shuffle(len(other), func(i, j int) { other[i], other[j] = other[j], other[i] })
+			budget := vkN(8, 40)
+			if len(other) > 2 {
+				other = other[:2]
+			}
+			// alternate the two kinds of boundary substitution, then a couple of non-boundary ones
+			var lowerB, upperB, cands []sub
+			for _, sb := range boundary {
+				if sb.kind == "coin == L+Weight of the lower neighbour" {
+					lowerB = append(lowerB, sb)
+				} else {
+					upperB = append(upperB, sb)
+				}
+			}
+			for i := 0; i < len(lowerB) || i < len(upperB); i++ {
+				if i < len(lowerB) {
+					cands = append(cands, lowerB[i])
+				}
+				if i < len(upperB) {
+					cands = append(cands, upperB[i])
+				}
+			}
+			cands = append(cands, other...)
+			if len(boundary) > 0 {
+				vk.Label("substitution: boundary coins available")
+			}
+			for _, sb := range cands {
+				if budget == 0 {
+					break
+				}
+				budget--
+				if inSlot(coins[sb.j], sb.q) {
+					t.Fatalf("harness error: substituted slot contains the coin")
+				}
+				cp, err := c39Copy(sp)
+				if err != nil {
+					t.Fatalf("copy: %v", err)
+				}
+				cp.PositionsToReveal[sb.j] = uint64(sb.q)
+				x := &c39T{sp: cp, b: b, round: c.Round, data: c.Data, partcom: b.partcom, pw: c.PW, st: c.ST}
+				vk.Label("substitution: " + sb.kind)
+				vk.Add("tampered_proofs", 1)
+				if err := c39Verify(x); err == nil {
+					t.Fatalf("position entry #%d re-pointed from slot %d to slot %d [L=%d, weight %d] is accepted although coin %d is outside [L, L+weight) (%s; weights profile %s, signed weight %d, %d positions)",
+						sb.j, sp.PositionsToReveal[sb.j], sb.q, slotL[sb.q], c.Weights[sb.q], coins[sb.j], sb.kind, c.Profile, sp.SignedWeight, len(sp.PositionsToReveal))
+				}
+			}
+		}
 		// a prover without the participants' keys: every slot carries a well-formed but invalid signature, committed consistently
 		if r.Intn(2) == 0 {
 			kinds := []string{"signatures over another message", "signatures of other identities", "signatures from another key period"}
@@ -781,4 +922,11 @@ func TestVerif_C39_Proofs(t *testing.T) {
 				"strengthTarget": c.ST, "round": c.Round, "positions": len(sp.PositionsToReveal), "reveals": len(sp.Reveals), "tamperingsApplied": applied})
 		}
 	})
+}
+
+func c39MinInt(a, b int) int {
+	if a < b {
+		return a
+	}
+	return b
 }
